@@ -1,5 +1,8 @@
 (* C03 — search(n_iter=N) performs exactly N steps; step accounting is exact.  Statements only. *)
 Require Import Base StopRun Converter Driver DriverObs DriverFacts StopFacts C03_proofs.
+Require Import PyPrims PyPrimsQ DriverGen DriverTie SearchGen SearchTie.
+From RecordUpdate Require Import RecordSet.
+Import RecordSetNotations.
 
 (* one call, any stopping configuration, any optimizer whose methods did not raise (search = Ok):
    k steps ran with 0 <= k <= N (k = N without stopping criteria); rows, pos_l, score_l, eval_times,
@@ -28,3 +31,42 @@ Example C03_nonvacuous :
                    length (ob_rows o2) = 6%nat /\ ob_counters o2 = [3; 3; 1; 3; 26]
   | _ => False end.
 Proof. vm_compute. repeat split; reflexivity. Qed.
+
+(* ---------- the step functions and the loop GENERATED from /repo's search.py (generated/SearchGen.v) ----------
+   simulate the model driver the theorems above are about: for every abstract optimizer, objective, clock and state.
+   abs : generated Search state (+ clock index) -> model state; Python exceptions correspond to the same Err *)
+Theorem C03_source_search_step_refines : forall (OP : optimizer) sp f clk (g : g_search (drv OP)) k n, ties g ->
+  match g_Search_search_step (drv OP) (inner_score sp f) clk k g n with
+  | Ok (g', k') => search_step sp f clk (abs g k) n = Ok (abs g' k') /\ same_cfg (g <| gs_nth_iter := n |>) g' /\
+                   gs_n_init_search g' <= gs_n_init_search g + 1 /\
+                   (gs_n_init_search g <= n -> n < gs_n_iter g -> stop_synced g' (gs_stop g))
+  | Err e => search_step sp f clk (abs g k) n = Err e
+  end.
+Proof. exact (@search_step_tie). Qed.
+Print Assumptions C03_source_search_step_refines.
+
+(* the loop of search(): `for nth_trial in range(n_iter): search_step(nth_trial); if stop.check(): break` -- from any state in
+   which the stop object was built from the call's settings (stop_shape) and the per-call init counter does not exceed the index *)
+Theorem C03_source_search_loop_refines : forall (OP : optimizer) sp f clk pa pr todo (a : nat) (g : g_search (drv OP)) k,
+  ties g -> stop_wf pa pr g -> stop_shape pa pr g -> gs_n_init_search g <= Z.of_nat a -> Z.of_nat a + Z.of_nat todo <= gs_n_iter g ->
+  match py_for_break (loop_body sp f clk) (map Z.of_nat (seq a todo)) (g, k) with
+  | Ok (g', k') => loop sp f clk todo (Z.of_nat a) (abs g k) = Ok (abs g' k')
+  | Err e => loop sp f clk todo (Z.of_nat a) (abs g k) = Err e
+  end.
+Proof. exact (@search_loop_tie). Qed.
+Print Assumptions C03_source_search_loop_refines.
+
+(* and the generated search loop IS that fold over range(n_iter) *)
+Theorem C03_source_search_loop_unfold : forall (OP : optimizer) sp f clk (g : g_search (drv OP)) k n,
+  g_Search_search_loop (drv OP) (inner_score sp f) clk k g n =
+  do (self, k) <- py_for_break (loop_body sp f clk) (py_range n) (g, k); Ok (self, k).
+Proof. exact (@search_loop_unfold). Qed.
+
+(* non-vacuity: a generated Search object right after init_search of a 3-step call satisfies the hypotheses *)
+Example C03_source_nonvacuous :
+  let d := (@drv_new scripted (2, [[0]; [1]; [2]])) <| d_call := mkCall 3 no_stop true None false |> in
+  let g := mkGSearch (OP := scripted) (2, [[0]; [1]; [2]]) d g_pbar_init false (stop_of no_stop false false 0 SNInf []) [] [] SNInf 0 0 0 0 0 2 3 [] [] in
+  ties g /\ stop_wf false false g /\ stop_shape false false g /\ gs_n_init_search g <= 0 /\ 0 + 3 <= gs_n_iter g.
+Proof.
+  cbv zeta. split; [split; reflexivity|]. split; [intros e H; discriminate|]. split; [exists SNInf, []; reflexivity|]. split; cbn; lia.
+Qed.
